@@ -1092,6 +1092,92 @@ impl Space for HugeSession {
     }
 }
 
+// ------------------------------------------------------------------ large cache occupancies
+/// The occupancy sweep at the sizes a bounded cache would choose: n distinct ranges loaded (n around
+/// every power of two from 64 to 4096), then each op once. The history is executed directly on one
+/// stream (no per-step oracle), only the final op is judged.
+pub struct OccupancyBig {
+    pub which: Which,
+}
+const BIG_N: [usize; 21] = [63, 64, 65, 127, 128, 129, 255, 256, 257, 511, 512, 513, 1023, 1024, 1025, 2047, 2048, 2049, 4095, 4096, 4097];
+impl Space for OccupancyBig {
+    fn name(&self) -> String {
+        format!("{:?}: n distinct ranges loaded on one stream, n in {{63..65, 127..129, 255..257, 511..513, 1023..1025, 2047..2049, 4095..4097}}, then each op of the tiny-full image: no panic, and the answer equals the slice parser's; 2 encodings", self.which)
+    }
+    fn size(&self) -> u64 {
+        2 * BIG_N.len() as u64
+    }
+    fn chunk_hint(&self) -> u64 {
+        1
+    }
+    fn hang_secs(&self) -> u64 {
+        600
+    }
+    fn describe(&self, idx: u64) -> Value {
+        json!({"encoding": ENCS[if idx % 2 == 0 { 2 } else { 1 }].name(), "ranges_loaded_first": BIG_N[(idx / 2) as usize]})
+    }
+    fn run(&self, idx: u64, out: &mut Outcome) {
+        let enc = ENCS[if idx % 2 == 0 { 2 } else { 1 }];
+        let n = BIG_N[(idx / 2) as usize];
+        let mut img = occupancy_image(enc);
+        let base = img.shdr_pool.len();
+        let flen = img.bytes.len() as u64;
+        for i in 0..n as u64 {
+            let start = 100 + (i % 1500);
+            let len = 1 + i / 1500;
+            assert!(start + len < flen);
+            img.shdr_pool.push(SectionHeader { sh_name: 0, sh_type: abi::SHT_PROGBITS, sh_flags: 0, sh_addr: 0, sh_offset: start, sh_size: len, sh_link: 0, sh_info: 0, sh_addralign: 1, sh_entsize: 0 });
+        }
+        let ops: Vec<Op> = img.ops.clone();
+        let slice = match ElfBytes::<AnyEndian>::minimal_parse(&img.bytes) {
+            Ok(f) => f,
+            Err(_) => return,
+        };
+        let mut dig = crate::util::Fnv::new();
+        for op in ops {
+            let (r, st) = open_stream_at(&img.bytes, &[], 0);
+            let mut stream = match r {
+                Ok(Ok(s)) => s,
+                _ => {
+                    out.violate("occupancy-big:open", "the tiny-full image does not open".to_string());
+                    return;
+                }
+            };
+            for k in 0..n {
+                begin_op(&st, &[]);
+                let (_, pm) = run_op_stream(&mut stream, &img, Op { kind: OpKind::SectionData, arg: (base + k) as u16 });
+                if let Some(m) = pm {
+                    out.violate(format!("panic:ElfStream in {}", panic_site(&m)), format!("loading range {k} of {n}: {m}"));
+                    return;
+                }
+            }
+            begin_op(&st, &[]);
+            let (res, pm) = run_op_stream(&mut stream, &img, op);
+            out.transitions += n as u64 + 1;
+            if let Some(m) = pm {
+                out.violate(format!("panic:ElfStream in {}", panic_site(&m)), format!("{:?} after {n} cached ranges: {m}", op));
+                return;
+            }
+            if self.which == Which::C07 && !is_compressed_op(&img, op) {
+                let truth = run_op_slice(&slice, &img, op);
+                if truth.ok && (!res.ok || res.digest != truth.digest) {
+                    out.violate(format!("occupancy-big:{:?}", op.kind), format!("{:?} after {n} cached ranges: the stream {} where the slice parser answers", op, if res.ok { "answers differently" } else { "fails" }));
+                    return;
+                }
+            }
+            dig.u64(res.digest ^ res.ok as u64);
+        }
+        out.nontrivial(dig.get() ^ idx);
+    }
+}
+fn is_compressed_op(img: &Image, op: Op) -> bool {
+    match op.kind {
+        OpKind::SectionData | OpKind::AsStrtab | OpKind::AsRels | OpKind::AsRelas | OpKind::AsNotes => img.shdr_pool.get(op.arg as usize).map(is_compressed).unwrap_or(false),
+        // the tiny-full image has one compressed PROGBITS section only: the table-level ops are in scope
+        _ => false,
+    }
+}
+
 // ------------------------------------------------------------------ cache-occupancy sweep
 /// Linear histories: n distinct one-byte ranges are loaded first (n = 0..=max), then one op is
 /// issued; for every n and every op the answer must equal the slice parser's (C07), stay inside
